@@ -347,9 +347,16 @@ def case_list(r, which, big=False):
     phase_len = max(8, nops // r.choice([2, 3, 5]))
     longshift = (not ul) and r.random() < 0.15      # reach the start % 256 compaction of iwlist_shift
     if longshift:
-        for _ in range(r.choice([300, 530])):
+        for _ in range(r.choice([300, 530, 600, 1100])):
             x = item()
             ops.append("pl push " + H(x)), exp.append(("rc", "push", 0)), ref.append(x)
+    if longshift and r.random() < 0.6:
+        # plain queue use: nothing but shifts across the compaction points (start = 256, 512, ...), every result checked
+        for _ in range(r.choice([256, 257, 300, 520])):
+            if not ref:
+                break
+            ops.append("pl shift"), exp.append(("item", "shift", ref.pop(0)))
+        ops.append("pl dump"), exp.append(("list", "dump", list(ref)))
     for i in range(nops):
         phase = (i // phase_len) % 3
         if longshift and i < nops // 2:
